@@ -280,10 +280,16 @@ def rpe_cli(run, case, rng, work):
     relation = CLI_REL[rel_cli]
     # stand-still stretches make zero reference distances likely for the ratio variant
     still = relation == "point_distance_error_ratio" and rng.random() < .6
-    fp = C01.make_file_pair(rng, fmt, work, pos_cls="stationary_mix" if still else None)
+    if case.get("real"):
+        fp = C01.real_file_pair(rng, work)
+        fmt = fp["fmt"]
+    else:
+        fp = C01.make_file_pair(rng, fmt, work, pos_cls="stationary_mix" if still else None)
     argv_o, o = C01.draw_common_options(rng, fp)
     du = "fmrd"[rng.integers(4)] if rng.random() < .6 else "f"
     all_pairs = bool(rng.random() < .3)
+    if case.get("real") and du in "rd":
+        all_pairs = False  # the all-pairs angle search is O(n^2) on thousands of poses
     if du == "f":
         delta = float(rng.integers(1, 6))
     elif du == "m":
@@ -317,6 +323,7 @@ def rpe_cli(run, case, rng, work):
     run.seen(case, core.digest(open(fp["ref_path"]).read(), open(fp["est_path"]).read(), argv),
              cls=["L3 fmt:" + fmt, "L3 relation:" + rel_cli, "L3 delta_unit:" + du,
                   "L3 all_pairs" if all_pairs else "L3 consecutive"] +
+             (["L3 real dataset: %s / %s" % fp["real"]] if "real" in fp else []) +
              ["opt:" + k for k, v in o.items() if v and v != -1 and k not in ("t_max_diff", )] +
              (["opt:change_unit"] if unit else []) + (["opt:pairs_from_reference"] if from_ref else []),
              sample={"argv": argv, "outcome": got or "ok"})
@@ -395,6 +402,8 @@ def main(run):
         k_unequal(run, run.case("unequal", i))
     for i in run.mine({"quick": 400, "thorough": 8000}[run.tier]):
         k_cli(run, run.case("cli", i))
+    for i in run.mine({"quick": 8, "thorough": 160}[run.tier]):
+        k_cli(run, run.case("cli", 10**6 + i, real=True))
     run.need("RPE: value == definition on its pair", "RPE: one value per selected pair",
              "RPE: pair end indices match the values in length and order",
              "RPE: unequal lengths refused", "RPE invariant under independent rigid motions",
